@@ -14,6 +14,8 @@ CONSTANTS
   MaxRepeat = 0
   DetOrder = FALSE
   Mults <- M1
+  Orgs <- Org0
+  RewriteScratch = FALSE
   SortedDel = "bsearch"
   MetKeyWraps = TRUE
   SkipTooBig = TRUE
